@@ -215,7 +215,7 @@ func (f *Frame) localByName(name string, env *Env) *Val {
 			}
 			real = append(real, c)
 		}
-		if len(real) == 1 {
+		if len(real) >= 1 {
 			cs = real
 		}
 	}
@@ -233,6 +233,9 @@ func (f *Frame) localByName(name string, env *Env) *Val {
 					continue
 				}
 				di, ok := d.x.(ssa.Instruction)
+				if ok && di.Block() != nil && !di.Block().Dominates(env.loop.header) {
+					continue // a version defined later (e.g. at the end of the enclosing loop's body)
+				}
 				if !ok || di.Block() == nil || !di.Block().Dominates(ci.Block()) || di.Block() == ci.Block() {
 					last = false
 				}
